@@ -6,7 +6,7 @@ pub(crate) fn published_label_snapshot(
     published_labels: &RwLock<Arc<LabelSnapshot>>,
 ) -> Arc<LabelSnapshot> {
     #[cfg(nervusdb_verif)]
-    crate::verif::touch("published_labels");
+    crate::verif::touch("published_labels.r");
     published_labels.read().unwrap().clone()
 }
 
